@@ -360,22 +360,31 @@ def _apply(case, rows, texts):
     from . import c04 as base
     how, form, ip = case.get("dtype", "list"), case["form"], case["in_place"]
     cat = _mk_dt(rows, how)
+
+    def own(res, c=None):
+        """in_place=False: a new object, the original's rows untouched; in_place=True: the catalog itself"""
+        c = cat if c is None else c
+        if not ip and (res is c or base.snapshot(c) != rows):
+            raise AssertionError(f"[{form}] in_place=False " + ("returned the catalog itself" if res is c else "changed the rows of the original"))
+        if ip and res is not c:
+            raise AssertionError(f"[{form}] in_place=True did not return the catalog itself")
+        return base.snapshot(res)
     if form == "string-each":
         for t in texts:
             cat = cat.filter(t, in_place=ip)
         return base.snapshot(cat)
     if form == "list":
-        return base.snapshot(cat.filter(list(texts), in_place=ip))
+        return own(cat.filter(list(texts), in_place=ip))
     if form == "tuple":
-        return base.snapshot(cat.filter(tuple(texts), in_place=ip))
+        return own(cat.filter(tuple(texts), in_place=ip))
     if form == "kw":
-        return base.snapshot(cat.filter(statements=list(texts), in_place=ip))
+        return own(cat.filter(statements=list(texts), in_place=ip))
     if form == "np-str":
         for t in texts:
             cat = cat.filter(numpy.str_(t), in_place=ip)
         return base.snapshot(cat)
     if form == "positional":
-        return base.snapshot(cat.filter(list(texts), ip))
+        return own(cat.filter(list(texts), ip))
     if form == "stored":
         cat = _mk_dt(rows, how, filters=list(texts) if len(texts) > 1 else texts[0])
         return base.snapshot(cat.filter(in_place=ip))
